@@ -11,7 +11,9 @@ func usage() {
   harness exec [-digest] [-buf] [-gc n] <cmds> <out> [<expected> [<side>]]
   harness gen  <family> <seed> <count> <outdir>      (writes <outdir>/<family>-<i>.cmds and prints stats JSON)
   harness layouts | pools | info
-  harness race|heap|gcstress ...                      (runtime legs, see runtime.go)`)
+  harness race <seed> <goroutines> <nops>             (C16, build with -race; runtime_race.go)
+  harness heap <seed> [N [keys]]                      (C17; runtime_heap.go)
+  harness gcstress <seed> [nkeys]                     (C18, build with -gcflags=all=-d=checkptr; runtime_gc.go)`)
 	os.Exit(2)
 }
 
